@@ -308,7 +308,8 @@ def run_layered(chk, repo, rule='R13.7'):
                 from ..core.interp import PathExplorer
                 if real:
                     # a data-dependent test inside a holder (melt present or not, ...) may come out either way at every call: every combination is a history
-                    outcomes = [(PathExplorer.label(tr_), g_) for tr_, g_ in PathExplorer(max_paths=256).run(history)]
+                    from .c13 import exact_coincidence
+                    outcomes = [(PathExplorer.label(tr_), g_) for tr_, g_ in PathExplorer(max_paths=256).run(history) if not exact_coincidence(tr_)]
                     refs = [g_ for _t, g_ in PathExplorer(max_paths=64).run(fresh)]
                 else:
                     got, path_label = explore_history(history)
@@ -366,8 +367,8 @@ def functional(chk, repo, rule='R13.8'):
         n = itf.call(mconv, need_func(mconv, 'semi_a2orbital_motion'), [st['a'], st['M_host'], st['M_world']])
         fm = itf.call(mm, need_func(mm, 'find_mode_manipulators'), [2, 2, obliq_on])
         sus = itf.call(mdis, need_func(mdis, 'calc_tidal_susceptibility'), [st['M_host'], st['R'], st['a']])
-        er = itf.call(fm[2].mod, fm[2].node, [st['e']])
-        ob = itf.call(fm[3].mod, fm[3].node, [st['obl'] if obliq_on else X.ZERO])
+        er = itf.apply(fm[2], [st['e']], {}, None, None)             # (table functions or callable wrappers around them)
+        ob = itf.apply(fm[3], [st['obl'] if obliq_on else X.ZERO], {}, None, None)
         uniq, terms = itf.call(mm, need_func(mm, 'calculate_terms'), [st['spin'], n, st['a'], st['R'], er, ob], {'multiply_modes_by_sign': True})
         tot = [X.ZERO] * 4
         bad = []
